@@ -80,3 +80,5 @@ layout('h2.connection.H2Connection', {
     '_inbound_flow_control_window_manager': 'obj:h2.windows.WindowManager',
     '_frame_dispatch_table': 'dispatch',
 })
+
+layout('h2.settings.ChangedSetting', {'setting': 'int', 'original_value': 'optint', 'new_value': 'int'})
